@@ -12,6 +12,9 @@ TRUSTED = [
  'extraction ExtrOcamlBasic (+ FMapPositive from the standard library) and oracle/driver.ml',
 ]
 
+def lambda_mode(bw, m):
+    return lambda i: m if bw[i] else 3
+
 def run(ctx):
     rng = ctx.rng
     import gen
@@ -46,8 +49,10 @@ def run(ctx):
     spec = oracle_dec(orc, 'xzdec 1', blobs)
     impl, fails = impl_dec(drv, 0, LZMA_CONCATENATED, 0, 0, blobs)
     impl3, fails3 = impl_dec(drv, 0, LZMA_CONCATENATED, 3, lambda i: i * 7 + 1, blobs)
-    impl1, fails1 = impl_dec(drv, 0, LZMA_CONCATENATED, 1, 0, blobs)   # one input byte per call: a call boundary inside every field
-    impl2, fails2 = impl_dec(drv, 0, LZMA_CONCATENATED, 2, 0, blobs)   # one output byte per call
+    # byte-wise modes cost one call per byte: all small files, every tenth large one (large ones get random slicing twice instead)
+    bw = [len(b) <= 4000 or (j % 10 == 0 and len(b) <= 60000) for j, b in enumerate(blobs)]
+    impl1, fails1 = impl_dec(drv, 0, LZMA_CONCATENATED, lambda_mode(bw, 1), lambda i: i * 11 + 3, blobs)   # one input byte per call: a call boundary inside every field
+    impl2, fails2 = impl_dec(drv, 0, LZMA_CONCATENATED, lambda_mode(bw, 2), lambda i: i * 13 + 5, blobs)   # one output byte per call
     mism = []
     kinds = {}
     for f in fails + fails3 + fails1 + fails2:
